@@ -60,6 +60,8 @@ def parse_trace(path):
                 s.final = p[2]
             elif k == "N":
                 s.extra["note"] = p[2]
+            elif k == "P":
+                s.extra.setdefault("P", []).append(p[2:])
             elif k == "X":
                 s.extra.update(dict(kv.split("=", 1) for kv in p[2].split(" ")))
             elif k == "K":
@@ -76,9 +78,11 @@ def model_input(scheds, path):
     with open(path, "w") as f:
         for s in scheds.values():
             f.write("B\t%s\n" % s.idx)
+            for pre in s.extra.get("P", []):
+                f.write("P\t%s\t%s\n" % (s.idx, "\t".join(pre)))
             for n, lbl, obs in s.acts:
                 f.write("A\t%s\t%s\t%s\t%s\n" % (s.idx, n, lbl, obs))
-            nscript = len([l for l in s.script if not l.startswith("skew ")])
+            nscript = len([l for l in s.script if not l.startswith(("skew ", "seq0 "))])
             if s.status and s.status.startswith("died") and nscript == len(s.acts) + 1 \
                     and s.script[-1].startswith("step rx"):
                 n = str(len(s.acts))
@@ -127,7 +131,31 @@ def record(ctx, hb, mode, arg, name):
     return scheds, m, mf
 
 
-def evaluate(ctx, prop, scheds, m, mf, stats, tag):
+def confirm_stall(ctx, hb, s, tag):
+    """A stall verdict is confirmed before it is reported: the schedule is run once more, ALONE (a fresh worker process,
+    no parked goroutines left over from hundreds of earlier schedules), with a 4x watchdog. Under the controlled
+    scheduler a real stall is deterministic and stalls again; a verdict that does not repeat was the machine being slow."""
+    import re
+    name = "confirm-%s-%s" % (re.sub(r"[^A-Za-z0-9]", "_", tag), s.idx)
+    sp = "%s/%s.script" % (ctx.work, name)
+    with open(sp, "w") as f:
+        f.write("S 0 %d confirm\n" % s.ncallers)
+        for l in s.script:
+            f.write(l + "\n")
+        f.write("E\n")
+    tr = "%s/%s.trace" % (ctx.work, name)
+    env = ctx.env()
+    base = int(os.environ.get("VERIF_WATCHDOG_MS", "5000") or "5000")
+    env["VERIF_WATCHDOG_MS"] = str(4 * base)
+    rc, out = C.sh([hb, "run", "script", sp, tr], env=env, timeout=1200, cwd=ctx.work)
+    if rc != 0:
+        raise C.BuildError("client harness c09 failed while confirming a stall (rc=%s): %s" % (rc, out[-1500:]))
+    for a in parse_trace(tr).values():
+        return (a.status or "").startswith("stuck")
+    return False
+
+
+def evaluate(ctx, prop, scheds, m, mf, stats, tag, hb=None):
     """Adds violations of `prop` for one batch; returns (validated, disagreements)."""
     validated = 0
     disagreements = 0
@@ -154,7 +182,13 @@ def evaluate(ctx, prop, scheds, m, mf, stats, tag):
             # which lock is void, a stall is its own artefact; the finding is the probe (model disagreement) and
             # whatever the direct oracles say about the frames
             stats["stalls_after_a_probe_got_through_(not_reported)"] += 1
+        elif st.startswith("stuck") and hb is not None and not confirm_stall(ctx, hb, s, tag):
+            stats["timing_retries"] += 1
+            ctx.notes.append("a stall verdict (%s, schedule %s/%s) did not repeat when the schedule was run alone with a 4x watchdog: "
+                             "counted as timing_retries, not reported" % (st, tag, s.idx))
         elif st.startswith("stuck"):
+            if hb is not None:
+                stats["stalls_confirmed"] += 1
             C.violation(ctx, st, "deadlock or stall: an operation the scheduler knew to be enabled did not complete within the "
                         "watchdog (%s) [schedule %s/%s]" % (st, tag, s.idx),
                         dict(replay, oracle="direct", expected="enabled step completes", got=st, goroutines=s.stack))
@@ -208,6 +242,12 @@ def evaluate(ctx, prop, scheds, m, mf, stats, tag):
             elif w[0] == "srv":
                 if "cont" in w:
                     stats["srv_container"] += 1
+                    if w.count("cont") > 1:
+                        stats["srv_container_in_container"] += 1
+                    if w[3] == "gz" and w[4] == "cont":
+                        stats["srv_gzip_packed_container"] += 1
+                if "2" in [w[i + 1] for i, x in enumerate(w[:-1]) if x in ("res", "err")]:
+                    stats["srv_result_for_an_id_never_used"] += 1
                 if w[3] == "gz":
                     stats["srv_toplevel_gzip"] += 1
                 if w[3] in ("res", "err"):
@@ -220,9 +260,15 @@ def evaluate(ctx, prop, scheds, m, mf, stats, tag):
         for r in s.rets:
             if r[3] != "pending":
                 stats["calls_completed"] += 1
+            if len(r) > 4 and r[4].isdigit() and int(r[4]) > 1:
+                stats["calls_answered_more_than_once"] += 1
+            if r[2].endswith(":empty"):
+                stats["results_empty_vector"] += 1
         x = s.extra
         if x:
             stats["clock_regime_" + x.get("skew", "?")] += 1
+            if x.get("seq0", "0") != "0":
+                stats["sessions_started_8_below_2^31_seq_no"] += 1
             stats["sends_with_clock_not_above_last_id"] += int(x.get("bumps", 0))
             if int(x.get("bumpmax", 0)) >= 2:
                 stats["schedules_with_2+_consecutive_such_sends"] += 1
@@ -255,7 +301,8 @@ def run_prop(ctx, prop, n_quick, n_thorough):
     distinct = set()
     samples = []
     exhaustive = []
-    batches = [("random", "random", str(n_quick if ctx.tier == "quick" else n_thorough))]
+    pinned = C.V + "/harness/root/cmd/c09/scripts/pinned.script"
+    batches = [("pinned", "script", pinned), ("random", "random", str(n_quick if ctx.tier == "quick" else n_thorough))]
     if ctx.tier == "thorough":
         for (k0, k1, gz) in ENUM_SCOPES:
             path = "%s/enum-%s-%s-%s.script" % (ctx.work, k0, k1, gz)
@@ -268,7 +315,7 @@ def run_prop(ctx, prop, n_quick, n_thorough):
             batches.append(("enum-%s-%s-gz%s" % (k0, k1, gz), "script", path))
     for (tag, mode, arg) in batches:
         scheds, m, mf = record(ctx, hb, mode, arg, tag)
-        v, d = evaluate(ctx, prop, scheds, m, mf, stats, tag)
+        v, d = evaluate(ctx, prop, scheds, m, mf, stats, tag, hb=hb)
         validated += v
         disagreements += d
         for s in scheds.values():
@@ -301,7 +348,8 @@ TRUSTED = [
     "the scheduler's notion of 'enabled' = Go semantics of sync.Mutex (free/held), unbuffered channel rendezvous, blocking socket read; "
     "'blocked on the send lock' = no arrival within 40 ms after release from 'prelock' while another sender is inside sendPacket",
     "clock regimes are set by writing MTProto.lastMsgID through reflection (equivalent to one earlier clock reading that far ahead)",
-    "coq/extract/C09/driver.ml (label parser, projection printer, two-caller enumerator)",
+    "coq/extract/C09/driver.ml (label parser, projection printer, two-caller enumerator); the traces are replayed through step2 of "
+    "Client/Live.v (the client with the repaired receive loop), keyed, without Warnings channel and handler",
     "loopback TCP delivers bytes in order; goroutine scheduling is fair; the 65 s read deadline and the 60 s pinger never fire "
     "inside a schedule (runs last milliseconds)",
 ]
@@ -311,7 +359,14 @@ ASSUMPTIONS = [
     "touches shared state only under seqNoMutex or through the mutex-protected tables, and the scheduler never lets two goroutines run "
     "between yields concurrently (one release at a time; a rendezvous releases exactly the two partners)",
     "scheduler fairness and real time-outs are assumed, not modelled; pinger and read deadline are outside the explored histories",
-    "seq_no monotonicity is stated for fewer than 2^30 messages per session (Go int32 seqNo wraps after that)",
+    "seq_no monotonicity is stated for fewer than 2^30 messages per session (Go int32 seqNo wraps after that): one schedule in eight "
+    "starts the client's counter 8 below 2^31 (reflection), the frames then carry the wrapped (negative) values and the model's wrap32 "
+    "must give the same numbers; the direct monotonicity oracle is off in those schedules - that is the documented limit",
+    "a stall verdict is reported only if it repeats when the schedule is run alone with a 4x watchdog (timing_retries counts the others)",
+    "results are compared as WHOLE values: every element of a vector (length classes 0, 1, 2, 17, 1500; the caller's token in the last "
+    "element), every field of an object (pong / msgs_detailed_info, token in the last field), rpc_error code and message; the expected "
+    "value of a call is the first answer addressed to it that can be decoded; later answers for the same id, answers for ids never used "
+    "and Vector<> answers to calls that declared none must be acknowledged and skipped",
     "server alphabet of the correspondence runs: rpc_result (object, Bool, Vector<int>, Vector<object>), rpc_error, gzip_packed inside "
     "rpc_result and around it, msg_container, pong, msgs_ack, new_session_created, an unhandled object; bad_server_salt / "
     "bad_msg_notification / connection close are reserved program counters of the model (C11, C16)",
@@ -326,7 +381,9 @@ def finish(ctx, prop, pr, stats, validated, disagreements, distinct, samples, ex
          "transitions": stats["actions"],
          "rule": "schedules are drawn while they run: at every point one of the enabled actions (start a call of a random result kind, "
                  "release one parked goroutine, let the server answer a random non-empty subset of the received requests in random order as "
-                 "plain message / gzip_packed / msg_container with optional service items, send an unsolicited service message) is chosen by a "
+                 "plain message / gzip_packed / msg_container (also nested in a container, gzip-packed as a whole, items gzip-packed) with optional service "
+                 "items, repeat an answer with the same or another payload / answer an id never used - before, between or after wanted results -, send an "
+                 "unsolicited service message) is chosen by a "
                  "splitmix64 stream seeded with VERIF_SEED; 1-4 callers with 1-2 calls each. Each random schedule runs in one clock regime: lastMsgID untouched (0), 4 below now, or one minute / one hour AHEAD of the wall clock "
                  "(then every send of the run - calls, pings issued through objects.Ping like the pinger does, the receive loop's msgs_ack - sees a clock "
                  "reading not above the last id; the model is then given the harness's own clock reading and must reach the observed id by its bump); "
